@@ -119,7 +119,9 @@ check("C06", "concurrent gets, puts and deletes are linearizable", [
        "<=4 operations on one key"),
     ob("VerifC06_PutVsFlush", "pkg/engine/storage", "one client Put racing FlushMemTables (MemTableSize=1), then a sequential Get: success => visible, error => no effect; data races on the way are reported",
        "2 threads, preemption bound 1", "preemption bound 2", q=P1, t=P2, no_validate=True),
-], [SIMFS, CLOCK, HASH, BLOOM, RAND, LOG, "Tier B: schedules enumerated exhaustively up to the preemption bound; data symbolic in every schedule"], [">2 clients", "compaction worker", "Close"])
+    ob("VerifC06_ReadsDuringCompaction", "pkg/engine", "a database restarted on two flushed level-0 tables with the logs retired (every read is served by tables); a compaction cycle (triggered or range) runs while a client reads both keys plainly or by a scan: every read returns the latest write of its key, whatever the interleaving with the cycle's file removals and table-list reload",
+       "2 keys (overwrite or delete of the first), 2 cycle kinds x 2 reader kinds, 2 threads, preemption bound 1", "preemption bound 2", q={"preempt": 1, "budget_s": 500}, t={"preempt": 2, "budget_s": 1200}, no_validate=True),
+], [SIMFS, CLOCK, HASH, BLOOM, RAND, LOG, "Tier B: schedules enumerated exhaustively up to the preemption bound; data symbolic in every schedule"], [">2 clients", "the ticker-driven compaction worker loop (its body, one compaction cycle, is what runs against the reader)", "Close"])
 
 check("C07", "no race, crash or hang under concurrent use", [
     ob("VerifC07_Pairs", "pkg/engine", "every unordered pair of fourteen EngineFacade entry points from two goroutines: no data race, panic, deadlock; both return",
